@@ -34,6 +34,8 @@ def mk_slice(s):
 
 
 def iclass(i, L):
+    if type(i) is not int:
+        return "non-int"
     if i < -L:
         return "neg-oob" if i < -L - 1 else "-L-1"
     if i < 0:
@@ -149,6 +151,9 @@ def gen_list_op(r, m, item, ops=OPS):
     elif k == "sort":
         op["reverse"] = r.random() < 0.5
         op["key"] = r.choice([None, None, "neg", "mod3"])
+    if "i" in op and r.random() < 0.04:
+        # no integer (and no __index__): the built-in refuses it
+        op["i"] = r.choice([1.5, -0.5, "1", 1.0, None])
     if "vs" in op and not op.get("noniter") and r.random() < 0.3:
         # the shape of the argument: any iterable is as good as a list (a generator
         # has neither __len__ nor __length_hint__, a tuple is no list, ...)
@@ -244,7 +249,7 @@ class Prop:
         cfg_r = stream(seed, "config")
         r = stream(seed, "ops")
         er = stream(seed, "env")
-        vkind = cfg_r.choice(["none", "coerce", "coerce", "point", "point"])
+        vkind = cfg_r.choice(["none", "coerce", "coerce", "point", "point", "once"])
         n0 = cfg_r.choice([0, 0, 1, 2, 3, 4, 5, 5, 6, 7])
         listeners = [cfg_r.choice(["raw", "raw", "obs"])
                      for _ in range(cfg_r.randint(1, 3))]
@@ -604,7 +609,7 @@ def describe(op):
         return "%s[%s:%s:%s]%s" % (k, op["s"][0], op["s"][1], op["s"][2],
                                    (" = %d items" % len(op["vs"])) if "vs" in op else "")
     if "i" in op:
-        return "%s(%d)" % (k, op["i"])
+        return "%s(%r)" % (k, op["i"])
     return k
 
 
